@@ -56,7 +56,7 @@ TRUSTED = [
 ]
 CLAIMED = True
 MANIFEST = {
- "level_text": "Theorems over Model/Materialize.v (all layouts: any shards/segments/zones/file times; all histories of new quiescent layouts, REMEMBERs and SHOWs; all arrival orders of the batches; queries with FOR/WHERE/SINCE on the core timestamp): inductive invariant 'stored frames = matching events at or below the mark'; every SHOW returns exactly the live selection, each event once; SHOW is idempotent without new data; REMEMBER under an existing name is rejected. The full property is refuted with machine-checked witnesses, each replayed on the real engine, and proved outside six decidable classes: the materialisation's mark is the mark of the LAST frame appended, not the maximum (MarkOfLastFrame: about one REMEMBER in four over memtable+segment stores the memtable batch first and the next SHOW returns those events twice); a payload time field (USING f) is compared against a mark taken from the core timestamp (PayloadTimeField); an event that is not above the mark when it arrives is never shown (EventNotAboveMark: frozen/backward clock, same millisecond on a lower shard); LIMIT is cut at REMEMBER and never re-applied by SHOW (LimitNotReapplied); REMEMBER inside a flush window stores the raw stream twice (RawStreamDuplicates); a segment file older than mark-1 s is skipped whole (SegmentOlderThanEvent). The round-0 hypothesis about created_at pruning after an empty REMEMBER is refuted (dead code). The model is replayed against the engine on generated histories with observed layouts/frames; the oracle compares SHOW with QUERY issued back to back.",
+ "level_text": "Theorems over Model/Materialize.v (all layouts: any shards/segments/zones/file times; all histories of new quiescent layouts, REMEMBERs and SHOWs; all arrival orders of the batches; queries with FOR/WHERE/SINCE on the core timestamp): inductive invariant 'stored frames = matching events at or below the mark'; every SHOW returns exactly the live selection, each event once; SHOW is idempotent without new data; REMEMBER under an existing name is rejected. The full property is refuted with machine-checked witnesses, each replayed on the real engine, and proved outside seven decidable classes: the materialisation's mark is the mark of the LAST frame appended, not the maximum (MarkOfLastFrame: about one REMEMBER in four over memtable+segment stores the memtable batch first and the next SHOW returns those events twice); a payload time field (USING f) is compared against a mark taken from the core timestamp (PayloadTimeField); an event that is not above the mark when it arrives is never shown (EventNotAboveMark: frozen/backward clock, same millisecond on a lower shard); LIMIT is cut at REMEMBER and never re-applied by SHOW (LimitNotReapplied); REMEMBER inside a flush window stores the raw stream twice (RawStreamDuplicates); a segment file older than mark-1 s is skipped whole (SegmentOlderThanEvent). SHOW's two-step persistence is modelled (frames appended while streaming, catalog entry rewritten after the response): a SHOW whose delivery failed, followed by any good operations and a healthy SHOW, is proved exact, except when the aborted refresh kept the newer delta batch only (InterruptedRefresh, reproduced with a response above the writer's 64 KiB buffer). The round-0 hypothesis about created_at pruning after an empty REMEMBER is refuted (dead code). The model is replayed against the engine on generated histories with observed layouts/frames; the oracle compares SHOW with QUERY issued back to back.",
  "design_ref": "DESIGN.md §6 C14",
  "level_note": "Trusted: Coq kernel; ExtrOcamlBasic extraction + ocaml/p_mat.ml; the engine harness, tools/engine.py, harness/src/probes/mat.rs (layout and frames are read with the engine's own readers); clock hooks under cfg(sneldb_verif). Arrival order of batches and (for LIMIT) the delivered rows are inputs taken from the observation. Not modelled: ORDER BY/OFFSET/aggregates in remembered queries, retention, batches > 32768 rows."
 }
